@@ -26,6 +26,7 @@ import (
 	"sync/atomic"
 
 	"github.com/tochemey/goakt/v4/internal/types"
+	"github.com/tochemey/goakt/v4/internal/verifhook"
 )
 
 // supervisionWork pairs a failing actor with the signal describing its failure.
@@ -83,6 +84,7 @@ func (s *supervision) Submit(pid *PID, signal *supervisionSignal) {
 		return
 	}
 
+	verifhook.At("sup.submit", pid, 0, 0)
 	select {
 	case s.queue <- supervisionWork{pid: pid, signal: signal}:
 	case <-s.stopCh:
@@ -100,9 +102,11 @@ func (s *supervision) run() {
 			// reproduces the prior behavior where only the first failure is acted on:
 			// notifyParent suspends on the first signal and any later in-flight signal
 			// is skipped here.
+			verifhook.At("sup.take", work.pid, 0, 0)
 			if work.pid.IsRunning() {
 				work.pid.notifyParent(work.signal)
 			}
+			verifhook.At("sup.done", work.pid, 0, 0)
 		case <-s.stopCh:
 			return
 		}
